@@ -21,9 +21,19 @@
                    (kind 1) from [pre]; the real read-only GetMeta on a directory
                    holding [img] answered (res, rty, rnum); the model must produce the same image and the same
                    answer, and the answer must be the old manifest number m0 or the new one.
-     KLife exists steps : OpenFile / Lock / Unlock / Close / guarded methods on one directory: error classes. *)
+     KLife exists steps : OpenFile / Lock / Unlock / Close / guarded methods on one directory: error classes.
+   The API totality sweep (Store/ApiTotality.v against the whole exported surface of the twelve packages):
+     KApi entry cls obs : calling [entry] with an argument of class [cls] had outcome class [obs] (0 ok, 1 error,
+                   2 panic, 3 hang, 4 huge allocation, 5 the process died): the table must allow it.
+     KApiEnum names : every exported function / method / interface method found in the Go source (go/ast) has a row.
+     KApiBuf isnil len off op n panicked : the util.Buffer model (Base/UBuffer.v) on the sweep's own inputs: a buffer made
+                   by NewBuffer over [len] bytes (isnil: the zero value / NewBuffer(nil)) of which [off] were consumed;
+                   one call of Truncate (op 0), Alloc (1), Grow (2) or Next (3) with the int argument n: the model's
+                   result is a panic exactly when the call panicked (allocations that kill the process are not cases). *)
 From GL Require Import Base.Bytes Store.Lifecycle Store.FileStorage.
 From GL Require Import Store.StorContract Store.MemStorage Store.FileStorageSeq.
+From GL Require Store.ApiTotality.
+From GL Require Base.NIdx Base.UBuffer.
 From Coq Require Import String List NArith ZArith Bool.
 Import ListNotations.
 
@@ -106,7 +116,10 @@ Inductive c18case :=
 | KCrash (kind : N) (pre : list (string * string)) (m0 : Z) (ty : N) (num : Z) (k : N) (mask : list bool) (sel : list (N * N))
          (img : list (string * string)) (res rty : N) (rnum : Z)
 | KLife (dirx : bool) (steps : list (fcall * N))
-| KStor (impl : N) (init : list (string * string)) (steps : list (ysop * ysres)).
+| KStor (impl : N) (init : list (string * string)) (steps : list (ysop * ysres))
+| KApi (entry cls : string) (obs : N)
+| KApiEnum (names : list string)
+| KApiBuf (isnil : bool) (len off : N) (op : N) (n : Z) (panicked : bool).
 
 Definition target (s : state) (c : call) : nat :=
   match c with
@@ -127,6 +140,9 @@ Fixpoint run_seq (s : state) (l : list kstep) : bool :=
   end.
 
 Definition model_names : list string := map api_name all_api.
+
+(* largest n for which make([]byte, n) does not panic (the runtime's maxAlloc on linux/amd64: 2^48) *)
+Definition api_mx : N := 281474976710656.
 
 Definition subset (a b : list string) : bool := forallb (fun x => existsb (String.eqb x) b) a.
 
@@ -224,6 +240,13 @@ Definition run_case (c : c18case) : bool :=
       if (impl =? 0)%N then run_steps (mstep true) m_empty steps
       else if (impl =? 1)%N then run_steps qstep (q_init (mkview init) q_empty) steps
       else run_steps vstep c_empty steps
+  | KApi entry cls obs => ApiTotality.outcome_allowed entry cls obs
+  | KApiEnum names => ApiTotality.surface_known names
+  | KApiBuf isnil len off op n panicked =>
+      let s := if isnil then UBuffer.u_zero else UBuffer.set_off (UBuffer.u_new (NIdx.zeros len) len) off in
+      let o := if (op =? 0)%N then UBuffer.OTruncate n else if (op =? 1)%N then UBuffer.OAlloc n
+               else if (op =? 2)%N then UBuffer.OGrow n else UBuffer.ONext n in
+      Bool.eqb (match snd (UBuffer.u_step api_mx s o) with UBuffer.RPanic _ => true | _ => false end) panicked
   end.
 
 Fixpoint mism_from {A} (f : A -> bool) (i : N) (l : list A) : list N :=
